@@ -264,6 +264,17 @@ EXTRA5 = {
 }
 
 
+# clauses added after the sixth (codemod-focused) round and the fifth refactoring batch (DESIGN.md 11.16 / 11.17)
+EXTRA6 = {
+    "C01": "Round 6: an expression taken from the source is put under `*` / `**` / `await` only when its node class is known atomic or it is parenthesised.",
+    "C02": "Round 6: hooks delete outright only node kinds that cannot carry a binding (or kinds a dedicated rule governs).",
+    "C06": "Round 6: argument specifications consumed by replace_args are built per call (also through chooser helpers and memoised properties).",
+    "C07": "Round 6: same argument-specification clause (a site skipped in the first run is fixed by the second).",
+    "C08": "Round 6: remove-future-imports drops only names of its deprecated table; hand-built string literals of lazy-logging (R-STRLIT) and node-removal kinds shared.",
+    "C13": "Round 6: no visit_* hook prunes the traversal by the user's line patterns.",
+}
+
+
 def main():
     props = [json.loads(l)["id"] for l in (VERIF / "properties.jsonl").read_text().splitlines() if l.strip()]
     checks = []
@@ -279,7 +290,7 @@ def main():
                 "evidence_file": f"evidence/{pid}.json",
                 "replay_cmd_template": f"/venv/bin/python sa/run.py {pid} --replay {{path}}",
                 "engine": "sa",
-                "level_claimed": {"category": "other", "text": c["text"] + (" " + EXTRA[pid] if pid in EXTRA else "") + (" " + EXTRA5[pid] if pid in EXTRA5 else ""), "design_ref": c["ref"]},
+                "level_claimed": {"category": "other", "text": c["text"] + (" " + EXTRA[pid] if pid in EXTRA else "") + (" " + EXTRA5[pid] if pid in EXTRA5 else "") + (" " + EXTRA6[pid] if pid in EXTRA6 else ""), "design_ref": c["ref"]},
                 "level_note": c["note"],
                 "technique": c["technique"],
             }
